@@ -176,3 +176,15 @@ package filters
 //@ requires inrange: 0 <= i && i < len(s.slice) && 0 <= j && j < len(s.slice)
 //@ ensures swapped: s.slice[i] == old(s.slice[j]) && s.slice[j] == old(s.slice[i])
 //@ ensures only: onlybase("S$Val", s.slice)
+
+// round: half up, i.e. floor(n * 10^places + 0.5) / 10^places (the operator structure is
+// pinned; the numerical meaning of the float operations is the library's).
+//@ func filter "round"
+//@ props C17 C03 C01
+//@ panics values.TypeError
+//@ assigns nothing
+//@ requires optional: places != nil
+//@ ghost pl Int = 0
+//@ at call places #1 assert dflt: arg0 == 0
+//@ at call places #1: pl = result
+//@ ensures halfUp: same(result, fdiv(math.Floor(fadd(fmul(n, math.Pow10(pl)), 0.5)), math.Pow10(pl)))
